@@ -181,7 +181,7 @@ pub fn construct(op: u8, c: usize, r: usize) {
 
 /// In-place permutations on owning elements: afterwards the cells are the same elements, each once.
 /// op: 0 swap, 1 swap_rows, 2 swap_cols, 3 sort_by_row, 4 sort_by_col, 5 translate_with_wrap,
-/// 6 flip_rows, 7 flip_cols, 8 sort_unstable_by_row, 9 sort_unstable_by_col
+/// 6 flip_rows, 7 flip_cols, 8 sort_unstable_by_row, 9 sort_unstable_by_col, 10 translate (column shift only)
 pub fn permute(op: u8, c: usize, r: usize) {
     let mut t = owned_tok(c, r, false);
     let n = c * r;
@@ -201,6 +201,7 @@ pub fn permute(op: u8, c: usize, r: usize) {
         3 => t.sort_by_row(r - 1, |a, b| a.val.cmp(&b.val)),
         4 => t.sort_by_col(c - 1, |a, b| a.val.cmp(&b.val)),
         5 => t.translate_with_wrap((nd::upto(c), 1)),
+        10 => t.translate_with_wrap((nd::upto(c), 0)),
         6 => t.flip_rows(),
         7 => t.flip_cols(),
         8 => t.sort_unstable_by_row(r - 1, |a, b| a.val.cmp(&b.val)),
